@@ -122,5 +122,4 @@ package chain
 // process exits): "a node that does not implement an enforced spork stops instead of continuing".
 //@ spec frontierOfPool(c *momentumPool) store.Momentum = iface("store.Momentum", c.frontierStore)
 //@ func momentumPool.AddMomentumTransaction(c, insertLocker, transaction)
-//@   requires c != nil && transaction != nil && transaction.Momentum != nil
 //@   ensures[halts-on-unknown-spork] result == nil ==> frontierOfPool(c) != nil ==> forall k int :: 0 <= k && k < len(definedSporksOf(frontierOfPool(c))) ==> !enforcedUnknown(definedSporksOf(frontierOfPool(c))[k], frontierOfPool(c).idHeight)
